@@ -14,6 +14,7 @@
   TAKE      block-limited sub-readers: take errs if shorter; into_left_after_take errs unless nothing is left
   HEADER    single-object: both entry points consume exactly the 10 header bytes and decode exactly the remainder
   TAKE      ... and the two sub-readers refuse a block longer than the input at the same point (F37, known finding)
+  TAKE      ... and the allocation cap goes into the block sub-reader and comes back out of it unchanged
   SHORTREAD a plain io::Read::read (which may return fewer bytes at a refill boundary) is never judged by its count
             outside Read implementations that forward it and the reviewed 1-byte end-of-stream probe
 It does NOT decide outcome equality for every chunking.
